@@ -1,12 +1,10 @@
 import Lm.Generated.Bst
 import Lm.Struct.Bst
-import Lm.Inst.Bst
+import Lm.Struct.BstCmp
 import Driver.Util
 /-! Line-protocol driver for the ordered-set model (property C11). -/
 namespace Driver.Bst
 open Lm.Struct.Bst
-
-open Lm.Inst.Bst (userCmp defaultCmp)
 
 def fmtVals (vs : List Val) : String := String.join (vs.map fun v => s!" {v}")
 
